@@ -102,6 +102,35 @@ func solveOne(file string, timeoutS int, seed int) solveResult {
 			}
 		}
 	}
+	// second round: the same query with other random seeds (guards against unlucky heuristics)
+	if last.result == "timeout" || last.result == "unknown" {
+		type sr struct{ r solveResult }
+		ch2 := make(chan solveResult, 4)
+		ctx2, cancel2 := context.WithCancel(context.Background())
+		defer cancel2()
+		n := 0
+		for _, sd := range []int{7, 13} {
+			for _, em := range []bool{false, true} {
+				n++
+				go func(sd int, em bool) {
+					args := []string{"z3-new", fmt.Sprintf("smt.random_seed=%d", sd), fmt.Sprintf("sat.random_seed=%d", sd)}
+					if em {
+						args = append(args, "smt.mbqi=false", "smt.auto_config=false")
+					}
+					args = append(args, fmt.Sprintf("-T:%d", timeoutS), file)
+					sp := solverSpec{fmt.Sprintf("z3-new-seed%d", sd), func(string, int) []string { return args }}
+					ch2 <- runSolver(ctx2, sp, file, timeoutS)
+				}(sd, em)
+			}
+		}
+		for i := 0; i < n; i++ {
+			r := <-ch2
+			if r.result == "unsat" || r.result == "sat" {
+				r.secs = time.Since(t0).Seconds()
+				return r
+			}
+		}
+	}
 	last.secs = time.Since(t0).Seconds()
 	if len(errs) == len(solvers) {
 		last.result = "error"
